@@ -96,7 +96,7 @@ OpsAt(root, p) ==
            THEN {[op |-> "mehd", path |-> p, at |-> i, ver |-> v] : i \in 1..(Len(n.kids) + 1), v \in {0, 1}} ELSE {})
      \cup (IF "large" \in OpKinds /\ ~top /\ ~n.large /\ ~n.eof THEN {[op |-> "large", path |-> p]} ELSE {})
      \cup (IF "spare" \in OpKinds /\ ~top /\ n.leaf /\ n.t \in SpareTypes /\ n.spare = <<>>
-           THEN {[op |-> "spare", path |-> p, len |-> 3]} ELSE {})
+           THEN {[op |-> "spare", path |-> p, len |-> ln] : ln \in {3, 8}} ELSE {})   \* 8: room for another field / a child header
 
 IsFrag == Base \in {"frag", "fragdef", "fragmf", "fragemsg", "fragsplit", "fragdefsplit", "fragboth"}
 \* "fragsplit": the fragments as a media segment of their own (opened against the initialization
